@@ -8,7 +8,16 @@ import re
 from .catalogue import NUMERIC, SHAPES
 from .api import Api
 
+from .common import Rng
+
 TSHORT = {"float": "f", "double": "d", "long double": "l"}
+
+
+def hash_name(s):
+    h = 1469598103934665603
+    for ch in s.encode():
+        h = ((h ^ ch) * 1099511628211) & ((1 << 64) - 1)
+    return h
 KNOWN_VALUE_TEMPLATES = ["PlanarVector", "Vector", "SymmetricDyad", "Dyad"]
 
 
@@ -564,6 +573,127 @@ template <class T> struct Maker<PhQ::ConstitutiveModel::CompressibleNewtonianFlu
                     names.append(n)
         return sorted(names)
 
+    # ------------------------------------------------------------------ constant-initialised literal objects (C19)
+    LIT_VALUES = ["1.0", "2.0", "-3.5", "0.125", "1234.5", "6.0e-5", "-98765.25", "0.75", "42.0", "1.0e7", "3.0", "10.0", "0.1", "0.001"]
+
+    def lit_template(self, ctype, T, r):
+        """a C++ expression of type `ctype` built from literals only, with numeric leaves written @N{value}@ so that it can be
+        rendered twice: as plain literals (the compiler may constant-evaluate the library) and laundered through a volatile"""
+        if ctype in ("float", "double", "long double"):
+            return "@N{%s|%s}@" % (ctype, r.choice(self.LIT_VALUES))
+        if ctype in ("int", "int8_t", "std::int8_t", "int32_t", "int64_t", "std::size_t", "size_t"):
+            return "static_cast<%s>(%d)" % (ctype, r.rng(0, 3))
+        if ctype == "bool":
+            return "true"
+        m = re.match(r"^std::array<(.+), (\d+)>$", ctype)
+        if m:
+            inner = [self.lit_template(m.group(1), T, r) for _ in range(int(m.group(2)))]
+            return None if any(x is None for x in inner) else "%s{{%s}}" % (ctype, ", ".join(inner))
+        m = re.match(r"^PhQ::Unit::(\w+)$", ctype)
+        if m and m.group(1) in self.cat.units:
+            return "%s::%s" % (ctype, r.choice(self.cat.units[m.group(1)]["enumerators"]))
+        if ctype == "PhQ::UnitSystem":
+            return "PhQ::UnitSystem::%s" % r.choice(self.cat.unit_systems)
+        m = re.match(r"^PhQ::(PlanarVector|Vector|SymmetricDyad|Dyad)<(.+)>$", ctype)
+        if m:
+            n = SHAPES[m.group(1)]
+            inner = [self.lit_template(m.group(2), T, r) for _ in range(n)]
+            return None if any(x is None for x in inner) else "%s{%s}" % (ctype, ", ".join(inner))
+        m = re.match(r"^PhQ::(Direction|PlanarDirection)<(.+)>$", ctype)
+        if m:
+            n = 3 if m.group(1) == "Direction" else 2
+            return "%s{%s}" % (ctype, ", ".join(self.lit_template(m.group(2), T, r) for _ in range(n)))
+        m = re.match(r"^PhQ::(\w+)<(.+)>$", ctype)
+        if m and m.group(1) in self.qnames:
+            q = self.qnames[m.group(1)]
+            shape = "PhQ::%s<%s>" % (q["shape"], m.group(2)) if q["shape"] != "Scalar" else m.group(2)
+            v = self.lit_template(shape, T, r)
+            if v is None:
+                return None
+            if q["unit"]:
+                e = r.choice(self.cat.units[q["unit"]]["enumerators"])
+                return "%s::Create<PhQ::Unit::%s::%s>(%s)" % (ctype, q["unit"], e, v)
+            return "%s{%s}" % (ctype, v)
+        return None
+
+    @staticmethod
+    def lit_render(tmpl, launder):
+        if launder:
+            return re.sub(r"@N\{([^|]+)\|([^}]+)\}@", lambda m: "vrt::launder<%s>(static_cast<%s>(%sL))" % (m.group(1), m.group(1), m.group(2)), tmpl)
+        return re.sub(r"@N\{([^|]+)\|([^}]+)\}@", lambda m: "static_cast<%s>(%sL)" % (m.group(1), m.group(2)), tmpl)
+
+    def render_const_literals(self, cname, rng, T="double"):
+        """for every constexpr public member of class cname: a namespace-scope object initialised by that call on literal
+        operands (constant-initialised where the compiler can evaluate the library at compile time), to be compared in main
+        with the same call on run-time operands"""
+        info, members = self.class_members(cname)
+        selfT = "PhQ::%s<%s>" % (cname, T)
+        short = cname.replace("::", "_")
+        decls, entries = [], []
+        seen = set()
+        for mem in members:
+            if "constexpr" not in mem.get("specs", []):
+                continue
+            name = mem.get("name", "")
+            if mem["kind"] == "method" and (name in ("SetValue", "MutableValue", "Set") or (name.startswith("operator") and name.endswith("=") and name not in ("operator==", "operator!=", "operator<=", "operator>="))):
+                continue
+            if mem["kind"] == "ctor" and not mem["params"]:
+                continue
+            for variant, vsuffix in self.variants(info, mem, T):
+                if variant.get("other"):
+                    continue
+                iname = "%s<%s>|literal:%s%s" % (cname, TSHORT[T], self.sig(mem), vsuffix)
+                base = "%s<%s>|%s%s" % (cname, TSHORT[T], self.sig(mem), vsuffix)
+                if iname in seen or base in self.exclude or (self.only is not None and iname not in self.only):
+                    continue
+                r = Rng((rng.u64() ^ hash_name(iname)) & ((1 << 64) - 1))
+                args = []
+                ok = True
+                for p in mem["params"]:
+                    ct = self.resolve(p["type"], T, info, None)
+                    if ct is None or p["mutable_ref"]:
+                        ok = False; break
+                    a = self.lit_template(ct, T, r)
+                    if a is None:
+                        ok = False; break
+                    args.append(a)
+                if not ok:
+                    continue
+                if mem["kind"] == "ctor":
+                    tmpl = "%s(%s)" % (selfT, ", ".join(args))
+                else:
+                    if mem["ret"].replace("constexpr", "").replace("inline", "").strip() == "void":
+                        continue
+                    tname = ("template %s<%s>" % (name, variant["enum"])) if variant.get("enum") else name
+                    if mem["static"]:
+                        tmpl = "%s::%s(%s)" % (selfT, tname, ", ".join(args))
+                    else:
+                        selft = self.lit_template(selfT, T, r)
+                        if selft is None:
+                            continue
+                        if name.startswith("operator"):
+                            op = name[len("operator"):]
+                            if len(args) == 1 and op not in ("()", "[]"):
+                                tmpl = "((%s) %s (%s))" % (selft, op, args[0])
+                            elif len(args) == 0 and op in ("-", "+"):
+                                tmpl = "(%s(%s))" % (op, selft)
+                            else:
+                                continue
+                        else:
+                            tmpl = "(%s).%s(%s)" % (selft, tname, ", ".join(args))
+                seen.add(iname)
+                k = len(entries)
+                uid = "%s_%d" % (short, k)
+                decls.append("static const vrt::ClitMark clit_b_%s{'B', \"%s\"};\nstatic const auto clit_%s = %s;\nstatic const vrt::ClitMark clit_e_%s{'E', \"%s\"};\n"
+                             "static vrt::ClitHash clit_obj_%s() { return vrt::hash_of(clit_%s); }\nstatic vrt::ClitHash clit_run_%s() { return vrt::hash_of(%s); }"
+                             % (uid, iname, uid, self.lit_render(tmpl, False), uid, iname, uid, uid, uid, self.lit_render(tmpl, True)))
+                entries.append('  {"%s", &clit_obj_%s, &clit_run_%s},' % (iname, uid, uid))
+                self.instances.append(iname)
+        if not entries:
+            return ""
+        return ("\n".join(decls) + "\nstatic const vrt::ClitEntry clit_table_%s[] = {\n%s\n};\nstatic const vrt::ClitRegistrar clit_reg_%s{clit_table_%s, %d};\n"
+                % (short, "\n".join(entries), short, short, len(entries)))
+
     def single_op_tu(self, name):
         """a TU containing only the named class op (used by calibration to test one op in isolation)"""
         m = re.match(r"^([\w:]+)<([fdl])>\|", name)
@@ -576,7 +706,7 @@ template <class T> struct Maker<PhQ::ConstitutiveModel::CompressibleNewtonianFlu
         self.only = saved
         return '#include "c20_prelude.hpp"\nnamespace {\n' + body + "}  // namespace\n"
 
-    def translation_units(self, ntus=16, subset=None, inline_twins=False, at_exit_object=False):
+    def translation_units(self, ntus=16, subset=None, inline_twins=False, at_exit_object=False, const_literals=None):
         """returns {filename: text}.  Every TU that includes the library pays a large fixed cost under the
         sanitizers (the dynamic initialisers of all enumeration tables are emitted in each), so the harness
         is packed into exactly `ntus` TUs of equal estimated weight.
@@ -592,6 +722,11 @@ template <class T> struct Maker<PhQ::ConstitutiveModel::CompressibleNewtonianFlu
                 text = self.render_class(n, [T])
                 if "vrt::OpEntry" in text:
                     frags.append((text.count("    case "), text))
+        if const_literals is not None:
+            for n in self.class_list():
+                text = self.render_const_literals(n, const_literals)
+                if text:
+                    frags.append((text.count("clit_obj_"), text))
         for U in sorted(self.cat.units):
             text = self.render_units([U], NUMERIC)
             if "vrt::OpEntry" in text:
